@@ -49,3 +49,9 @@ claim("C20", "exploration", "bounded exhaustive enumeration of documents (deviat
       "copy (category, from, to) and replace (category, item, alphabet) choice incl. absent and new ones: only the target item changes, "
       "copy/replace semantics hold, absent category/source leaves the text untouched, and the CLI writes the library's result.",
       "Trusts the harness tokenizer mc/cif.py; category position in the file and too-short alphabets are outside the property.", "DESIGN.md 3/C20")
+
+claim("C19", "exploration", "exhaustive enumeration of label strings, line sequences and DSSR documents on the real code against a regular-expression grammar",
+      "unify_classification on every string up to length 5 (quick) / 6 (thorough) over the 19-symbol FR3D alphabet; every sequence of up to 3/4 lines "
+      "from a 26-line alphabet through parse_fr3d_output; every DSSR document with <=2 pairs and <=1 stack over the stated name and LW alphabets: "
+      "never raises, certain labels filed exactly, underivable labels kept as 'other', malformed lines skipped, DSSR pairs/stacks kept exactly when resolvable and valid.",
+      "Grammar in mc/ref/refadapter.py written from the property text; ambiguous labels (e.g. 's55a', 'S55') only have to yield exactly one interaction.", "DESIGN.md 3/C19")
